@@ -272,6 +272,9 @@ def fold_bool(c):
     h = c[0]
     if h == "cmp":
         a, b = c[2], c[3]
+        if c[1] in ("In", "NotIn") and a[0] == "str" and b[0] == "dict":
+            present = any(k == a for k, _ in b[1])
+            return ("bool", present if c[1] == "In" else not present)
         if a[0] in ("str", "num") and b[0] == a[0]:
             x, y = a[1], b[1]
             try:
